@@ -16,6 +16,16 @@ import MW.Lemmas.RemoveMain
 import MW.Lemmas.RemoveHistory
 import MW.Lemmas.RemoveEx
 import MW.Lemmas.TxmgrCodecRec
+import MW.Lemmas.RemoveReach2
+import MW.Lemmas.RemoveMidCex
+import MW.Lemmas.RemoveInterleave2Ex
+import MW.Lemmas.RemoveInterleave3Ex
+import MW.Lemmas.RemoveInterleave4Ex
+import MW.Lemmas.RemoveInterleave5Ex
+import MW.Lemmas.RemoveInterleave6Ex
+import MW.Lemmas.RemoveJoinEx
+import MW.Lemmas.RemoveFlaggedEx
+import MW.Lemmas.RemoveSimEx
 namespace MW.Props.C08
 open MW MW.Model.Ledger MW.Model.Remove MW.Lemmas.RemoveScan MW.Lemmas.RemoveStep MW.Lemmas.RemoveFrame
   MW.Lemmas.RemoveProgress
@@ -759,6 +769,309 @@ example : let s : Store := { credits := [(k1, ⟨500, false, false, .standard, 0
                                         (k1, ⟨1, false, false, .standard, 0, "A2", none⟩)] }
     AMap.get s.credits k1 = some ⟨500, false, false, .standard, 0, "A1", none⟩ ∧
     (removeStep 20000 ctx "W2" ["A2"] s).map (fun o => AMap.get o.s.credits k1) = some none := by decide
+-- ------------------------------------------------------------------ Round 5: reachable stores; removal INTERLEAVED with the follower
+
+section Round5
+open MW.Spec.Chain MW.Spec.Books MW.Spec.Pending MW.Lemmas.Ledger MW.Lemmas.RemoveProj MW.Lemmas.RemoveInv MW.Lemmas.RemoveChar
+  MW.Lemmas.RemoveUpper MW.Lemmas.RemoveJoin MW.Lemmas.RemoveFlagged MW.Lemmas.RemoveInterleave MW.Lemmas.RemoveGlue
+  MW.Lemmas.RemoveSim MW.Lemmas.ImportJoin MW.Lemmas.PendHist MW.Lemmas.PendHist.Cred MW.Lemmas.PendHist.CredRb
+  MW.Lemmas.LedgerPending MW.Lemmas.RemovePend
+
+/-- **credits_nodup_follower** — the hypothesis `KeysNodup s.credits` of `remove_projects` is an invariant of the follower:
+    along every C01 history (node events, handler steps: extensions, reorganisations, unconfirmed transactions) the keys
+    of the credit bucket stay pairwise distinct. -/
+theorem credits_nodup_follower (e : MW.Lemmas.Ledger.Env) (w0 : World) (evs : List Ev) (h : KeysNodup w0.s.credits) :
+    KeysNodup (runW e w0 evs).s.credits := MW.Lemmas.LedgerWFCred.credNodup_runW e w0 evs h
+
+/-- … along every C09 history (receive / connect / disconnect steps), with no domain hypothesis -/
+theorem credits_nodup_pending_history (E : HEnv) (evs : List HEv) (w : HW) (h : KeysNodup w.s.credits) :
+    KeysNodup (runH E w evs).s.credits := MW.Lemmas.LedgerWFCred.credNodup_runH E evs w h
+
+/-- … and through every removal step -/
+theorem credits_nodup_remove_step {limit : Nat} {c : Ctx} {w : Wid} {addrs : List Addr} {s : Store} {o : StepOut}
+    (hne : addrs ≠ []) (hn : KeysNodup s.credits) (h : removeStep limit c w addrs s = some o) :
+    KeysNodup o.s.credits := MW.Lemmas.RemoveReach.credNodup_removeStep hne hn h
+
+/-- **pending_off_reachable** — the hypothesis `pendOff` of `remove_projects` ("no unmined credit belongs to a
+    transaction of the wallet's chain") holds in every store reached by a C09 history inside the domain of
+    `pending_refines` (`HOKf`: nothing is assumed about the pending-credit buckets). -/
+theorem pending_off_reachable {rank : TxId → Nat} {E : HEnv} (evs : List HEv) (w0 : HW) (H0 : HInvC rank E w0)
+    (hn0 : KeysNodup w0.s.credits) (hD : ∀ x ∈ worldsH E w0 evs, HOKf rank E x.1 x.2) :
+    Inv (E.ctx (runH E w0 evs).node) (runH E w0 evs).s (runH E w0 evs).sp.chain ∧
+    KeysNodup (runH E w0 evs).s.credits ∧
+    (∀ e ∈ (runH E w0 evs).s.pendCred, e.1.1 ∉ idsOf (occs (runH E w0 evs).sp.chain)) :=
+  MW.Lemmas.RemoveReach.reachable_ready_full evs w0 H0 hn0 hD
+
+/-- **remove_projects_reachable** — `remove_projects` on reachable stores: after ANY C09 history inside the domain,
+    from a world satisfying C09's invariant whose credit keys are distinct (the fresh store), a finishing removal step
+    leaves C01's invariant for the context without the keystore.  Only `RemHyp` (the keystore view, the chain) is left. -/
+theorem remove_projects_reachable {rank : TxId → Nat} {E : HEnv} (evs : List HEv) (w0 : HW) (H0 : HInvC rank E w0)
+    (hn0 : KeysNodup w0.s.credits) (hD : ∀ x ∈ worldsH E w0 evs, HOKf rank E x.1 x.2)
+    (limit : Nat) {w : Wid} {addrs : List Addr} {own' : Own}
+    (H : RemHyp (E.ctx (runH E w0 evs).node) w addrs own' (runH E w0 evs).sp.chain)
+    (ws' : List Wid) (hws : ∀ x ∈ ws', x ∈ E.wallets)
+    {o : StepOut} (h : removeStep limit (E.ctx (runH E w0 evs).node) w addrs (runH E w0 evs).s = some o)
+    (hf : o.finish = true) :
+    Inv { (E.ctx (runH E w0 evs).node) with own := own', wallets := ws' } o.s (runH E w0 evs).sp.chain :=
+  MW.Lemmas.RemoveReach.remove_projects_reachable_full evs w0 H0 hn0 hD limit H ws' hws h hf
+
+/-- … and the worker loop, however many transactions it takes -/
+theorem remove_run_projects_reachable {rank : TxId → Nat} {E : HEnv} (evs : List HEv) (w0 : HW) (H0 : HInvC rank E w0)
+    (hn0 : KeysNodup w0.s.credits) (hD : ∀ x ∈ worldsH E w0 evs, HOKf rank E x.1 x.2)
+    (limit : Nat) {w : Wid} {addrs : List Addr} {own' : Own}
+    (H : RemHyp (E.ctx (runH E w0 evs).node) w addrs own' (runH E w0 evs).sp.chain)
+    (ws' : List Wid) (hws : ∀ x ∈ ws', x ∈ E.wallets) (n : Nat) {s' : Store}
+    (h : run limit (E.ctx (runH E w0 evs).node) w addrs n (runH E w0 evs).s = .done s') :
+    Inv { (E.ctx (runH E w0 evs).node) with own := own', wallets := ws' } s' (runH E w0 evs).sp.chain :=
+  MW.Lemmas.RemoveReach.run_projects_reachable_full evs w0 H0 hn0 hD limit H ws' hws n h
+
+/-- non-vacuity: the concrete C09 history of `MW.Lemmas.PendHistEx`, then the removal of W1 (all hypotheses met) -/
+example (o : StepOut) (h : removeStep 20000 (MW.Lemmas.PendHist.exE.ctx MW.Lemmas.RemoveReach.exWf.node) "W1" ["A1"]
+      MW.Lemmas.RemoveReach.exWf.s = some o) :
+    Inv { (MW.Lemmas.PendHist.exE.ctx MW.Lemmas.RemoveReach.exWf.node) with own := MW.Lemmas.RemoveReach.exOwn', wallets := [] }
+      o.s MW.Lemmas.RemoveReach.exWf.sp.chain := MW.Lemmas.RemoveReach.ex_projects_reachable o h
+
+/-- THE FULL INTERLEAVING STATEMENT, kept type-checked — and FALSE of the model (next theorem): from C01's invariant for
+    the full keystore table, with `w` flagged and every other keystore's wallet ready, ANY history of removal steps,
+    announced node states (extensions and reorganisations), unconfirmed transactions and restarts that ends with the
+    finishing step leaves C01's invariant for the table without `w` on the chain the follower was last told about. -/
+def remove_interleaved_projects_full : Prop :=
+  ∀ (limit : Nat) (c : Ctx) (w : Wid) (addrs : List Addr) (own' : Own) (G : Block) (x0 x : ISt) (evs : List IEv)
+    (ws' : List Wid),
+    limit > 0 → KeysNodup c.own →
+    RemHyp c w addrs own' c.node.chain → GoodChain c.node.chain → c.node.chain[0]? = some G →
+    x0.node = c.node → x0.fin = false → x0.v.best = tipMeta c.node.chain →
+    Inv c x0.s c.node.chain → KeysNodup x0.s.credits → KeysNodup x0.s.unspent →
+    (∀ e ∈ x0.s.pendCred, e.1.1 ∉ idsOf (occs c.node.chain)) →
+    AMap.get x0.s.status w = some ⟨none, true⟩ →
+    (∀ a w' ch, AMap.get c.own a = some (w', ch) → w' ≠ w → (readyWallets x0.s c.wallets).contains w' = true) →
+    (∀ ev ∈ evs, EvOK c.own G c.node.known ev) →
+    (∀ y ∈ ws', y ∈ c.wallets) →
+    irun limit c w addrs x0 evs = some x → x.fin = true →
+    Inv { c with own := own', wallets := ws', node := x.node } x.s x.node.chain
+
+/-- **remove_interleaved_projects_literal_false.**  The full statement is FALSE of the model: with step size 1, W2's
+    coinbase C1 pays W2 twice and W1 once, X3 spends both coins of W2.  Step 1 deletes one credit with its debit and —
+    X3 being needed by nobody else — X3's tx record; a reorganisation below C1's block then cannot roll X3 back
+    (no record) but rolls C1 back (W1 needs it), erasing the other credit; the finishing step finds nothing left of W2
+    and the debit of the erased credit stays for ever (`MW.Lemmas.RemoveMidCex`; on the real code, with 20 003 credits:
+    corpus-candidates/C08-reorg-between-steps-dangling-debit.ops, `dangling` = `d:X3:1`; candidate repair
+    fixes/C08-interleaved-debit.patch: a tx record is kept while a credit or a debit of its transaction is left). -/
+theorem remove_interleaved_projects_literal_false : ¬ remove_interleaved_projects_full :=
+  MW.Lemmas.RemoveMidCex.not_interleavedProjects
+
+/-- **remove_flagged_follower_keeps.**  While `w` is flagged for removal (not ready) and no removal step has run, a
+    notification of ANY block of the node's best chain — tip extension or reorganisation, above, at or below the height
+    at which the wallet was flagged — succeeds and keeps the joined-store invariant `FJ` (C07's `ScanJS` with a ghost
+    height: the other wallets booked for the whole followed chain, `w` up to the flag height). -/
+theorem remove_flagged_follower_keeps {c : Ctx} {w : Wid} (hKN : KeysNodup c.own) {S : List Block}
+    (hgN : GoodChain c.node.chain) (hgS : GoodChain S) (hgen : S[0]? = c.node.chain[0]?)
+    (hinj : IdInj (S ++ c.node.chain)) (hvN : ChainValid c.own c.node.chain) (hvS : ChainValid c.own S)
+    (hkn : ∀ x ∈ S, AMap.get c.node.known x.id = some x)
+    {s : Store} {v : Vol} {b : Block} (hI : FJ c w s S) (hb : c.node.chain[b.height]? = some b)
+    (hv : v.best = tipMeta S) (hg0 : b.height = 0 → b.prev ≠ (tipMeta S).hash) :
+    ∃ s' v', processBlock c s v b = (s', v', true) ∧ FJ c w s' (c.node.chain.take (b.height + 1)) ∧
+      v'.best = tipMeta (c.node.chain.take (b.height + 1)) :=
+  fj_processBlock hKN hgN hgS hgen hinj hvN hvS hkn hI hb hv hg0
+
+/-- RemoveWallet on a store satisfying C01's invariant starts the flagged phase -/
+theorem remove_flag_starts {c : Ctx} {w : Wid} {s : Store} {chain : List Block} {q : Nat} {ks : List Wid} {po : Bool}
+    (hKN : KeysNodup c.own) (hI : Inv c s chain) (hV : ChainValid c.own chain) (hH : HeightsOK chain) (hne : chain ≠ [])
+    (hrw : (readyWallets s c.wallets).contains w = true) (hAR : AllReady c.own (readyWallets s c.wallets))
+    (hother : ∃ w', w' ≠ w ∧ (readyWallets s c.wallets).contains w' = true)
+    (hgate : (removeWallet q ks po s w).1 = .ok) : FJ c w (removeWallet q ks po s w).2 chain :=
+  inv_flag_to_fj hKN hI hV hH hne hrw hAR hother hgate
+
+/-- **remove_flagged_run_projects.**  Follower activity between RemoveWallet and the first removal step is covered:
+    from ANY store of the flagged phase (`FJ`, reached through `remove_flagged_follower_keeps`), the worker loop — however
+    many transactions it takes — ends in C01's invariant for the context without the keystore, on the chain then followed. -/
+theorem remove_flagged_run_projects {limit : Nat} {c : Ctx} {w : Wid} {addrs : List Addr} {own' : Own} {X : List Block}
+    {s s' : Store} {ws' : List Wid} {n : Nat}
+    (hFJ : FJ c w s X) (hO : OwnMinus c.own own' w) (hman : ∀ a, addrs.contains a = isW c.own w a) (hne : addrs ≠ [])
+    (hKN : KeysNodup c.own) (hV : ChainValid c.own X) (hH : HeightsOK X)
+    (hkn : ∀ x ∈ X, AMap.get c.node.known x.id = some x)
+    (hn : KeysNodup s.credits) (hp : PendOK addrs s X) (hws : ∀ x ∈ ws', x ∈ c.wallets)
+    (hrun : run limit c w addrs n s = .done s') : Inv { c with own := own', wallets := ws' } s' X :=
+  flagged_run_projects hFJ hO hman hne hKN hV hH hkn hn hp hws hrun
+
+/-- **remove_after_follower_projects.**  Histories (`irun`: the model functions the driver executes) in which the
+    follower's BLOCK events — extensions and reorganisations of any depth — come before the first removal step, with
+    unconfirmed transactions and restarts anywhere and any number of removal steps: the finishing step leaves C01's
+    invariant for the table without `w` on the chain the follower was last told about.  Domain `DomA`: at a removal step
+    no unmined credit of ANOTHER wallet belongs to a chain transaction (`PendOK`); an announced node state is a valid
+    well-formed chain of known blocks announced by its tip; a restart keeps the follower's best block. -/
+theorem remove_after_follower_projects {limit : Nat} {c : Ctx} {w : Wid} {addrs : List Addr} {own' : Own} {G : Block}
+    {x0 x : ISt} {evs : List IEv} {ws' : List Wid}
+    (hP : Phase1 c w G x0) (hS : Static c w addrs own') (hD : DomA limit c w addrs G false x0 evs)
+    (hrun : irun limit c w addrs x0 evs = some x) (hfin : x.fin = true) (hws : ∀ y ∈ ws', y ∈ c.wallets) :
+    Inv { c with own := own', wallets := ws', node := x.node } x.s x.node.chain :=
+  MW.Lemmas.RemoveInterleave.remove_after_follower_projects hP hS hD hrun hfin hws
+
+/-- **remove_interleaved_ext.**  THE POSITIVE INTERLEAVING THEOREM: histories inside `DomB` — tip notifications for ANY
+    announced node state (extensions, reorganisations of any depth) before the first removal step, EXTENSIONS of the stored
+    chain between the removal steps, unconfirmed transactions and restarts anywhere, any number of removal steps of any
+    size — that end with the finishing step leave C01's invariant for the table without `w`, on the chain the follower
+    was last told about.  What `DomB` excludes is exactly the counterexample's shape: a REORGANISATION between two removal
+    steps (`remove_interleaved_projects_literal_false`).  Proof: a ghost store (the store without the removal steps so
+    far) keeps C07's joined-store invariant under the new block (`connect_scanJS'`); `filterBlock` on the real store
+    SIMULATES `filterBlock` on the ghost (`MW.Lemmas.RemoveSim.filterBlock_sim`: same relevance records, same writes, the
+    records of `w` that are missing are never read); the in-progress invariant is rebuilt for the longer chain. -/
+theorem remove_interleaved_ext {limit : Nat} {c : Ctx} {w : Wid} {addrs : List Addr} {own' : Own} {G : Block}
+    {x0 x : ISt} {evs : List IEv} {ws' : List Wid}
+    (hP : Phase1 c w G x0) (hS : Static c w addrs own') (hD : DomB limit c w addrs G false x0 evs)
+    (hrun : irun limit c w addrs x0 evs = some x) (hfin : x.fin = true) (hws : ∀ y ∈ ws', y ∈ c.wallets) :
+    Inv { c with own := own', wallets := ws', node := x.node } x.s x.node.chain :=
+  MW.Lemmas.RemoveInterleave.remove_interleaved_ext hP hS hD hrun hfin hws
+
+/-- **remove_interleaved_above.**  The widest positive interleaving theorem: histories inside `DomC` — ANY announced node
+    states (extensions, reorganisations of any depth) before the first removal step; after it, extensions AND
+    REORGANISATIONS THAT FORK ABOVE THE FLOOR, the floor being the follower's tip height when the first removal step ran
+    (only blocks connected after that step are rolled back); unconfirmed transactions and restarts anywhere; any number of
+    removal steps of any size — that end with the finishing step leave C01's invariant for the table without `w`, on the
+    chain the follower was last told about.  The counterexample of `remove_interleaved_projects_literal_false` is outside
+    `DomC` exactly at the floor clause (its reorganisation replaces blocks connected BEFORE the first step).  Proof:
+    everything of `w`'s half of the joined book sits under blocks of height ≤ the flag height ≤ floor, so the ghost store
+    and the real store agree under every block above the floor; `disconnectBlock` on the real store simulates
+    `disconnectBlock` on the ghost (`MW.Lemmas.RemoveSim.disconnectBlock_sim`), the ghost moves by C07's
+    `disconnect_scanJS_above'`, the in-progress invariant is rebuilt for the shorter chain (`midC_shrink`), and C07's
+    abstract reorganisation loops are re-proved with a floor (`MW.Lemmas.ImportReorg.processBlock_reachesIF`). -/
+theorem remove_interleaved_above {limit : Nat} {c : Ctx} {w : Wid} {addrs : List Addr} {own' : Own} {G : Block}
+    {x0 x : ISt} {evs : List IEv} {ws' : List Wid}
+    (hP : Phase1 c w G x0) (hS : Static c w addrs own') (hD : DomC limit c w addrs G none x0 evs)
+    (hrun : irun limit c w addrs x0 evs = some x) (hfin : x.fin = true) (hws : ∀ y ∈ ws', y ∈ c.wallets) :
+    Inv { c with own := own', wallets := ws', node := x.node } x.s x.node.chain :=
+  MW.Lemmas.RemoveInterleave.remove_interleaved_above hP hS hD hrun hfin hws
+
+/-- **remove_interleaved_above_nopend.**  `remove_interleaved_above` WITHOUT the pending-side hypothesis at the removal
+    steps (domain `DomF`): the pending-side invariant `PCI` at the start is carried through unconfirmed transactions
+    (delivered id not on the followed chain, an id already pending denotes the same transaction), removal steps,
+    extensions, and — once the first step has run — reorganisations above the floor (`pci_disconnect`: Rollback
+    re-creates the unmined credits of the transactions it puts back, which then are not on the shorter chain;
+    `pci_connect`); a notification's blocks must not reuse the id of a pending transaction or of a transaction of the
+    stored chain for a different transaction (`AllowedAt`).  Before the first removal step `DomF` admits extensions only
+    (reorganisations there: `remove_interleaved_above`, with `PendOK` at the steps). -/
+theorem remove_interleaved_above_nopend {limit : Nat} {c : Ctx} {w : Wid} {addrs : List Addr} {own' : Own} {G : Block}
+    {x0 x : ISt} {evs : List IEv} {ws' : List Wid}
+    (hP : Phase1 c w G x0) (hS : Static c w addrs own') (hPCI : PCI c addrs x0.s x0.node.chain)
+    (hD : DomF limit c w addrs G none x0 evs) (hrun : irun limit c w addrs x0 evs = some x) (hfin : x.fin = true)
+    (hws : ∀ y ∈ ws', y ∈ c.wallets) :
+    Inv { c with own := own', wallets := ws', node := x.node } x.s x.node.chain :=
+  MW.Lemmas.RemoveInterleave.remove_interleaved_above_nopend hP hS hPCI hD hrun hfin hws
+
+/-- the rollback half of the simulation, for ARBITRARY stores: disconnecting the tip block on a store `s` that is `g`
+    minus records of script hashes no ready wallet owns, when the records under the tip block agree key by key and its
+    debits spend credits that are not of those script hashes, succeeds whenever it does on `g`, with related results -/
+theorem remove_disconnect_simulation {addrs : List Addr} {c : Ctx} {g s g' : Store} {h : Nat} {bh : BlkId}
+    {txs : List TxId} (hSub : Sub addrs g s) (hng : KeysNodup g.credits) (hns : KeysNodup s.credits)
+    (hh : g.syncedTo = h) (h0 : h ≠ 0) (hrec : AMap.get g.blocks h = some (bh, txs)) (hN : NewEq ⟨h, bh⟩ g s)
+    (hdeb : ∀ id i d cr, AMap.get g.debits ⟨id, ⟨h, bh⟩, i⟩ = some d → AMap.get g.credits d.2 = some cr →
+      addrs.contains cr.sh = false)
+    (hg : disconnectBlock c g h = .ok g') :
+    ∃ s', disconnectBlock c s h = .ok s' ∧ Sub addrs g' s' ∧ NewEq ⟨h, bh⟩ g' s' := by
+  obtain ⟨s', h1, h2, _, _, h3, _⟩ := disconnectBlock_sim hSub hng hns hh h0 hrec hN hdeb hg
+  exact ⟨s', h1, h2, h3⟩
+
+/-- **remove_interleaved_extensions.**  Histories whose block events are all tip EXTENSIONS (domain `DomE`: a delivered
+    unconfirmed transaction is not on the followed chain and an id already pending denotes the same transaction; a
+    notification announces a valid well-formed chain of known blocks that extends the stored one, ids of the block's
+    transactions distinct, a block transaction with a pending id IS the pending one; a restart keeps the best block;
+    NOTHING is asked at a removal step): from the start invariant `Phase1` and the pending-side invariant `PCI` (an unmined
+    credit of another wallet belongs to a pending transaction at an output paying a managed address, none belongs to a
+    chain transaction — `MW.Lemmas.RemovePend`), the finishing step leaves C01's invariant for the table without `w`. -/
+theorem remove_interleaved_extensions {limit : Nat} {c : Ctx} {w : Wid} {addrs : List Addr} {own' : Own} {G : Block}
+    {x0 x : ISt} {evs : List IEv} {ws' : List Wid}
+    (hP : Phase1 c w G x0) (hS : Static c w addrs own') (hPCI : PCI c addrs x0.s x0.node.chain)
+    (hD : DomE limit c w addrs G x0 evs) (hrun : irun limit c w addrs x0 evs = some x) (hfin : x.fin = true)
+    (hws : ∀ y ∈ ws', y ∈ c.wallets) :
+    Inv { c with own := own', wallets := ws', node := x.node } x.s x.node.chain :=
+  MW.Lemmas.RemoveInterleave.remove_interleaved_extensions hP hS hPCI hD hrun hfin hws
+
+/-- **remove_interleaved_reachable.**  END TO END: a C09 history inside the domain of `pending_refines` (`HOKf`) from a
+    world satisfying C09's invariant with distinct keys in the credit and pending-credit buckets (the fresh wallet)
+    ends in a world `W` in sync with its node; RemoveWallet is accepted there for a ready wallet `w` while another wallet
+    stays ready; then ANY interleaving of removal steps, new blocks, unconfirmed transactions and restarts inside `DomE`
+    that ends with the finishing step leaves C01's invariant for the table without `w` — so every later block,
+    reorganisation and query is C01's theorem for the remaining keystores.  (C09's invariant carries no chain facts: the
+    well-formedness of `W`'s chain is asked for.) -/
+theorem remove_interleaved_reachable {rank : TxId → Nat} {E : HEnv} (evs0 : List HEv) (w0 : HW) (H0 : HInvC rank E w0)
+    (hn0 : KeysNodup w0.s.credits) (hp0 : KeysNodup w0.s.pendCred)
+    (hD0 : ∀ x ∈ worldsH E w0 evs0, HOKf rank E x.1 x.2)
+    (W : HW) (hW : W = runH E w0 evs0) (hsync : W.node.chain = W.sp.chain)
+    {G : Block} (hgood : GoodChain W.sp.chain) (hvalid : ChainValid E.own W.sp.chain) (hgen : W.sp.chain[0]? = some G)
+    (hknown : ∀ y ∈ W.sp.chain, AMap.get W.node.known y.id = some y)
+    {q : Nat} {ks : List Wid} {po : Bool} {w : Wid} (hgate : (removeWallet q ks po W.s w).1 = .ok)
+    (hrw : (readyWallets W.s E.wallets).contains w = true)
+    (hother : ∃ w', w' ≠ w ∧ (readyWallets W.s E.wallets).contains w' = true)
+    {addrs : List Addr} {own' : Own} (hS : Static (E.ctx W.node) w addrs own')
+    {v : Vol} (hv : v.best = tipMeta W.sp.chain)
+    {limit : Nat} {evs : List IEv} {x : ISt} {ws' : List Wid}
+    (hD : DomE limit (E.ctx W.node) w addrs G { s := (removeWallet q ks po W.s w).2, v := v, node := W.node } evs)
+    (hrun : irun limit (E.ctx W.node) w addrs { s := (removeWallet q ks po W.s w).2, v := v, node := W.node } evs =
+      some x)
+    (hfin : x.fin = true) (hws : ∀ y ∈ ws', y ∈ E.wallets) :
+    Inv { (E.ctx W.node) with own := own', wallets := ws', node := x.node } x.s x.node.chain :=
+  MW.Lemmas.RemoveInterleave.remove_interleaved_reachable evs0 w0 H0 hn0 hp0 hD0 W hW hsync hgood hvalid hgen hknown hgate
+    hrw hother hS hv hD hrun hfin hws
+
+/-- **remove_connect_simulation** — the structural heart of the extension step, for ARBITRARY stores: if `filterBlock`
+    succeeds on a store `g`, it succeeds with the same confirmed ids on every store `s` that is `g` minus records of
+    script hashes no ready wallet owns (`Sub`), and the results are related in the same way (`NewEq`: the new block's
+    records agree key by key; frame clauses for the old keys). -/
+theorem remove_connect_simulation {addrs : List Addr} {ready : List Wid} {c : Ctx} {g s g' : Store} {b : Block}
+    {conf : List TxId} (hSub : Sub addrs g s) (hng : KeysNodup g.credits) (hns : KeysNodup s.credits)
+    (hF : Fresh ⟨b.height, b.id⟩ g) (hFs : AMap.get s.blocks b.height = none) (hC : CoinsOK addrs ready g)
+    (hfind : ∀ id, existCreditFromTx g id = true → (c.node.fetchTx id).isSome = true)
+    (hown : ∀ (id : TxId) (pt : Tx) (idx : Nat) (o : Out) (w' : Wid) (ch : Bool), existCreditFromTx g id = true →
+      existCreditFromTx s id = false → c.node.fetchTx id = some pt → pt.outs[idx]? = some o → o.cls ≠ .raw →
+      AMap.get c.own o.addr = some (w', ch) → ready.contains w' = false)
+    (hrel : ∀ a w' ch, AMap.get c.own a = some (w', ch) → ready.contains w' = true → addrs.contains a = false)
+    (hg : filterBlock c g ready b = .ok (g', conf)) :
+    ∃ s', filterBlock c s ready b = .ok (s', conf) ∧ Sub addrs g' s' ∧ NewEq ⟨b.height, b.id⟩ g' s' := by
+  obtain ⟨s', h1, h2, h3, _⟩ := filterBlock_sim hSub hng hns hF hFs hC hfind hown hrel hg
+  exact ⟨s', h1, h2, h3⟩
+
+/-- non-vacuity of `remove_interleaved_ext`: reorganisation, step, a NEW BLOCK in which W1 spends and is paid, step -/
+example : (irun 1 MW.Lemmas.RemoveMidCex.ctx "W2" ["A2"] MW.Lemmas.RemoveMidCex.x0
+    MW.Lemmas.RemoveInterleave3Ex.evsD).isSome = true := MW.Lemmas.RemoveInterleave3Ex.runD_some
+
+/-- the hypotheses of the full statement (plus: the flagged wallet's balance entry is still its ledger total, some
+    wallet is ready) give the start invariant `Phase1` -/
+theorem remove_interleaved_start {c : Ctx} {w : Wid} {addrs : List Addr} {own' : Own} {G : Block} {x0 : ISt}
+    (hKN : KeysNodup c.own) (H : RemHyp c w addrs own' c.node.chain)
+    (hg : GoodChain c.node.chain) (hgen : c.node.chain[0]? = some G)
+    (hnode : x0.node = c.node) (hfin : x0.fin = false) (hbest : x0.v.best = tipMeta c.node.chain)
+    (hI : Inv c x0.s c.node.chain) (hn : KeysNodup x0.s.credits)
+    (hflag : AMap.get x0.s.status w = some ⟨none, true⟩)
+    (hothers : ∀ a w' ch, AMap.get c.own a = some (w', ch) → w' ≠ w →
+      (readyWallets x0.s c.wallets).contains w' = true)
+    (hbalw : AMap.get x0.s.balance w = some (totalU (bookOf c.p c.own c.node.chain).L w))
+    (hrne : (readyWallets x0.s c.wallets).isEmpty = false) : Phase1 c w G x0 :=
+  phase1_of_inv hKN H hg hgen hnode hfin hbest hI hn hflag hothers hbalw hrne
+
+/-- **remove_mid_step_upper** — the in-progress invariant relative to an ABSTRACT upper book (`MidU`, `UpperOK`): every
+    RemoveRelevantTx keeps it; `Mid` is the instance `U = bookOf c.p c.own chain` (`upperOK_bookOf`, `mid_to_midU`). -/
+theorem remove_mid_step_upper {c : Ctx} {w : Wid} {addrs : List Addr} {own' : Own} {chain : List Block} {U : Book}
+    (limit : Nat) (H : RemHyp c w addrs own' chain) (HU : UpperOK c w own' chain U) {s : Store}
+    (hM : MidU c w addrs own' s chain U) {o : StepOut} (h : removeRelevantTx limit c s addrs = some o) :
+    MidU c w addrs own' o.s chain U ∧
+      (o.finish = true → ∀ k cr, AMap.get o.s.credits k = some cr → isW c.own w cr.sh = false) :=
+  mid_step_U limit H HU hM h
+
+/-- the finishing step, from `MidU` for any upper book satisfying `UpperOK` -/
+theorem remove_finish_projects_upper {c : Ctx} {w : Wid} {addrs : List Addr} {own' : Own} {chain : List Block} {U : Book}
+    (limit : Nat) (H : RemHyp c w addrs own' chain) (HU : UpperOK c w own' chain U) {s : Store}
+    (hM : MidU c w addrs own' s chain U) (ws' : List Wid) (hws : ∀ x ∈ ws', x ∈ c.wallets)
+    {o : StepOut} (h : removeStep limit c w addrs s = some o) (hf : o.finish = true) :
+    Inv { c with own := own', wallets := ws' } o.s chain := finish_projects_U limit H HU hM ws' hws h hf
+
+/-- **remove_upper_join** — the joined book (other wallets for the whole chain ⊕ `w` up to the flag height `k`) is an
+    upper book: everything the removal proofs use about the books of a chain holds of it. -/
+theorem remove_upper_join {c : Ctx} {w : Wid} {addrs : List Addr} {own' : Own} {chain : List Block} {k : Nat}
+    (H : RemHyp c w addrs own' chain) (hKN : KeysNodup c.own) (hk : k + 1 ≤ chain.length) :
+    UpperOK c w own' chain (joinBookK c w own' chain k) := upperOK_join H hKN hk
+
+end Round5
+
 -- ------------------------------------------------------------------ byte level (Round 4): id-prefix scans on real byte keys
 section Codec
 open MW.Model.TxmgrCodec MW.TxmgrCodec MW.Gen.Codec
